@@ -58,7 +58,8 @@ AcStep ==
        [] OTHER -> FALSE
   /\ j' = j + 1 /\ i' = i
 
-Silent == SysNext /\ ~fin /\ UNCHANGED <<i, j>>
+(* when arbitrary traffic is validated (~Strict) a service returning to the handler loop is not logged either *)
+Silent == (SysNext \/ (~Strict /\ AcReturn)) /\ ~fin /\ UNCHANGED <<i, j>>
 
 (* everything consumed and both sides finished: what the model wrote and concluded must be what was observed *)
 FinalClauses ==
@@ -66,7 +67,7 @@ FinalClauses ==
   \o (IF wrote["A"] # Seq2(C.a2r) THEN <<"acceptor-stream-differs-from-the-specification">> ELSE <<>>)
   \o (IF svc # C.svc THEN <<"services-invoked-differs">> ELSE <<>>)
   \o (IF entered # C.entered THEN <<"body-entered-differs">> ELSE <<>>)
-  \o (IF rqErr.type # C.rqErr.type \/ rqErr.f # Seq2(C.rqErr.f) THEN <<"error-leaving-the-requesting-block-differs">> ELSE <<>>)
+  \o (IF Strict /\ (rqErr.type # C.rqErr.type \/ rqErr.f # Seq2(C.rqErr.f)) THEN <<"error-leaving-the-requesting-block-differs">> ELSE <<>>)
   \o (IF ~RefusalFaithful THEN <<"RefusalFaithful">> ELSE <<>>)
   \o (IF ~AbortFaithful THEN <<"AbortFaithful">> ELSE <<>>)
   \o (IF ~ReleaseFaithful THEN <<"ReleaseFaithful">> ELSE <<>>)
